@@ -38,8 +38,8 @@ def body(group, salt, thorough):
 
 SWEEP_SRC = '''#define C18_SWEEP 1
 #include "%s"
-int main(int argc, char** argv){ install();
-  unsigned long long lo = strtoull(argv[1], nullptr, 10), hi = strtoull(argv[2], nullptr, 10);
+int main(){ install();
+  unsigned long long lo = C18_LO, hi = C18_HI;
   Rng rng(seed_from_env()*977+lo);
   unsigned s1 = unsigned(rng.next()), s2 = 1 + unsigned(rng.below(31));
   sweep(lo, hi, s1, s2);
@@ -66,8 +66,9 @@ def tus(tier, seed):
         for c in ['gcc', 'clang', 'gen']:
             for i in range(chunks):
                 lo, hi = i * step, (i + 1) * step - 1
-                res.append(dict(name='C18_sweep32_%s_%d' % (c, i), src=SWEEP_SRC, opt='-O2', args=[str(lo), str(hi)],
-                                run_timeout=3000, **CONFIGS[c]))
+                # the chunk bounds are part of the source text: every chunk is its own cached binary
+                src = '#define C18_LO %dull\n#define C18_HI %dull\n' % (lo, hi) + SWEEP_SRC
+                res.append(dict(name='C18_sweep32_%s_%d' % (c, i), src=src, opt='-O2', run_timeout=3000, **CONFIGS[c]))
     return res
 
 
